@@ -338,8 +338,8 @@ func RunCoh(c *core.Ctx) {
 					var want []string
 					if mn == "slowProtoReflect" {
 						ms := "protoimpl.X.MessageStateOf(protoimpl.Pointer(x))"
-						want = []string{"if (protoimpl.UnsafeEnabled && (x != nil)) {%t1 := " + ms + "; if (%t1.LoadMessageInfo() == nil) {%t1.StoreMessageInfo(&" + idxExpr + ")}; return %t1}; return &" + idxExpr + ".MessageOf(x)",
-							"if (protoimpl.UnsafeEnabled && (x != nil)) {if (" + ms + ".LoadMessageInfo() == nil) {" + ms + ".StoreMessageInfo(&" + idxExpr + ")}; return " + ms + "}; return &" + idxExpr + ".MessageOf(x)"}
+						want = []string{"if ((x != nil) && protoimpl.UnsafeEnabled) {%t1 := " + ms + "; if (%t1.LoadMessageInfo() == nil) {%t1.StoreMessageInfo(&" + idxExpr + ")}; return %t1}; return &" + idxExpr + ".MessageOf(x)",
+							"if ((x != nil) && protoimpl.UnsafeEnabled) {if (" + ms + ".LoadMessageInfo() == nil) {" + ms + ".StoreMessageInfo(&" + idxExpr + ")}; return " + ms + "}; return &" + idxExpr + ".MessageOf(x)"}
 					} else {
 						want = []string{"*x = " + tq(m.Named) + "{}; if protoimpl.UnsafeEnabled {protoimpl.X.MessageStateOf(protoimpl.Pointer(x)).StoreMessageInfo(&" + idxExpr + ")}"}
 					}
@@ -938,12 +938,13 @@ func checkMessageAPI(c *core.Ctx, g *model.GenPkg, m *model.Msg, fdVars map[type
 	}
 	c.Check(len(missing) == 0, "COH.md", m.Q()+" field descriptor variables", fmt.Sprintf("%d fd_ variables resolve by name through the parent chain", len(m.Fields)), fmt.Sprintf("fields without a descriptor variable: %v", missing), "", src)
 	want := map[string][]string{
-		mt + ".Zero":          {"return *" + tq(m.Fast) + "(nil)"},
-		mt + ".New":           {"return new(" + tq(m.Fast) + ")"},
+		mt + ".Zero":          {"return *" + tq(m.Fast) + "(nil)", "var %t1 *" + tq(m.Fast) + "; return %t1"},
+		mt + ".New":           {"return new(" + tq(m.Fast) + ")", "return &" + tq(m.Fast) + "{}"},
 		mt + ".Descriptor":    {"return " + mdName},
 		fast + ".Descriptor":  {"return " + mdName},
 		fast + ".Type":        {"return " + mtVar},
-		fast + ".New":         {"return new(" + tq(m.Fast) + ")"},
+		// (or through the type singleton, whose New is held to the form above)
+		fast + ".New":         {"return new(" + tq(m.Fast) + ")", "return &" + tq(m.Fast) + "{}", "return " + mtVar + ".New()"},
 		fast + ".Interface":   {"return *" + tq(m.Named) + "(x)"},
 		m.GoName + ".ProtoReflect": {"return *" + tq(m.Fast) + "(x)"},
 		m.GoName + ".String":       {"return protoimpl.X.MessageStringOf(x)"},
@@ -1045,7 +1046,8 @@ func checkMessageAPI(c *core.Ctx, g *model.GenPkg, m *model.Msg, fdVars map[type
 		}
 		got, cerr := canonBody(g, fd)
 		want := "if (x != nil) {return x." + o.GoName + "}; return nil"
-		c.Check(cerr == "" && got == want, "COH.getter", con, want, "getter does: "+got+" ; expected: "+want, pos(c, g, fd.Pos()), src)
+		guardFirst := "if (x == nil) {return nil}; return x." + o.GoName
+		c.Check(cerr == "" && (got == want || got == guardFirst), "COH.getter", con, want, "getter does: "+got+" ; expected: "+want, pos(c, g, fd.Pos()), src)
 	}
 }
 
@@ -1088,7 +1090,7 @@ func checkGetter(c *core.Ctx, g *model.GenPkg, m *model.Msg, f *model.Field) {
 		if f.Oneof != nil {
 			want = append(want, "if %v, %ok := x.Get"+f.Oneof.GoName+"().(*"+tq(f.Wrapper)+"); %ok {return %v."+f.GoName+"}; return "+z)
 		} else {
-			want = append(want, "if (x != nil) {return x."+f.GoName+"}; return "+z)
+			want = append(want, "if (x != nil) {return x."+f.GoName+"}; return "+z, "if (x == nil) {return "+z+"}; return x."+f.GoName)
 		}
 	}
 	c.Check(cerr == "" && in(got, want), "COH.getter", con, got, "getter does: "+got+" ; expected: "+want[0], pos(c, g, fd.Pos()), src)
